@@ -22,7 +22,7 @@ ASSUMPTIONS = [
     "tolerance (1e-9 + 256 kappa 2^-53)*scale, kappa = max(cond of the reference MNA, cond(jwI - A)); kappa > 1e8 set aside",
     "numpy used for the complex linear solve of the transfer function and for condition numbers",
 ]
-N_CIRC = {'quick': 500, 'thorough': 9000}
+N_CIRC = {'quick': 1000, 'thorough': 9000}
 DYN_IDS = ['R1', 'R2', 'R10', 'G1', 'Vs', 'Vq', 'V1', 'Is', 'Iq', 'I1', 'A', 'B', 'Z', 'a', 'z', 'L1', 'L2', 'L10', 'La', 'C1', 'C2', 'C10', 'Ca',
            '1', '2', '10', '9', 'U', 'q', 'K', 'M', 'H1', 'E', 'X', 'Y', 'W', 'b', 'c']
 
